@@ -170,12 +170,12 @@ pub fn compile_depth_binop(lhs_raw: &Expr, op: &Op, rhs: &Expr, state: &mut Stat
 }} // verus!
 fn main() {{}}
 """
-    obls = [Obl("C15.binop.layout", ["C15", "C09", "C12"], fn="compile_depth_binop",
+    obls = [Obl("C15.binop.layout", ["C15", "C09", "C12", "C01"], fn="compile_depth_binop",
                 desc="compile_depth BinOp arm: left operand's code strictly before the right operand's, each once; &&/|| emit store_skip with the skip landing one past the final bin_op (right operand not evaluated); the register holding the left value is not written by the right operand's code; for all operand code")]
     return gen, obls, log
 
 
-UNITS = [VUnit("c15_binop", ["C15", "C09", "C12"], "binary operators: operand order, short-circuit layout, register discipline", build)]
+UNITS = [VUnit("c15_binop", ["C15", "C09", "C12", "C01"], "binary operators: operand order, short-circuit layout, register discipline", build)]
 UNITS[0].assumes = ["recursive compile_depth calls (any operand expression) are assumed to satisfy the register frame contract this arm is proved to re-establish (induction hypothesis over the expression tree, not mechanised)",
                     "register allocator abstract: poll hands out the counter value; a register passed by value is released by the callee",
                     "operand shapes for op-assign / ?= as delivered by the parser are preconditions"]
